@@ -175,7 +175,9 @@ def run_c01(repo, tier, seed, only=None):
     R = Runner('C01')
     name = 'bounded:C01.single-source-evaluates-to-its-plain-yaml-content'
     fixed = ['!force {a: {b: [1, 2]}}', '{_x: 1, y: {_z: [1, {_w: 2}]}}', '{a: !del [1, [2, 3]], b: !merge {c: !weak 1}}', '{a: !new {b: !unsafe [1, 2]}}',
-             "{a: !metadata{{'k': 1}} 5, b: !metadata{{'priority': 1, 'm': 'x'}} [1, 2]}", '{1: a, 2.5: b, c: 1.5, d: null, e: true, f: "1"}']
+             "{a: !metadata{{'k': 1}} 5, b: !metadata{{'priority': 1, 'm': 'x'}} [1, 2]}", '{1: a, 2.5: b, c: 1.5, d: null, e: true, f: "1"}',
+             # float and int keys whose value is a container (with and without tags), at several depths
+             '{a: {2.5: {b: 1}}}', '{a: {2.5: !force [1, 2]}}', '{0.5: [], b: 1}', '{a: !del {b: {c: [1, {1.5: {d: [2, 3]}}]}}}', '{-1: {x: [1]}, 7: !merge [2]}']
     cases = [(t, None) for t in fixed]
     for _ in range(n_cases(tier, 300, 5000)):
         g = G.Gen(rng, tags=('force', 'weak', 'del', 'merge', 'new', 'unsafe'), p_tag=0.4, int_keys=True)
@@ -291,6 +293,35 @@ def run_c19(repo, tier, seed, only=None):
     import awesomeyaml.yaml as ayyaml
     rng = random.Random(19000 + seed)
     R = Runner('C19')
+    # trees built from Python data whose keys are spelled like private attributes of the node classes (a copy restores the state
+    # first and re-attaches the children afterwards: the children must not be mistaken for attributes)
+    for data in ({'_idx': 1, 'a': 2}, {'a': [{'_metadata': 1, 'k': {'_priority': 5, '_safe': 0}}]}, {'opts': {'_children': 1, '_delete': 2, '_source_file': 'f'}},
+                 {'_allow_new': {'_implicit_safe': [1]}},
+                 {'_delete': True, '_implicit_delete': 'a', '_allow_new': 'b', '_implicit_allow_new': 'c', '_safe': 'd', '_implicit_safe': 'e', 'z': {'q': ['f']}}):
+        from awesomeyaml.nodes.dict import ConfigDict
+        try:
+            tree = ConfigDict(data)
+            sig = node_signature(tree)
+        except Exception as e:
+            R.skip(repr(data), e)
+            continue
+        R.case(repr(data), {'python_data': repr(data)})
+        for label, mk in (('deepcopy', lambda t: copy.deepcopy(t)), ('pickle', lambda t: pickle.loads(pickle.dumps(t)))):
+            try:
+                ok = node_signature(mk(tree)) == sig
+                why = 'differs from the original'
+            except Exception as e:
+                ok, why = False, f'failed with {type(e).__name__}: {e}'[:200]
+            if not ok:
+                R.fail(f'bounded:C19.{label}-reproduces-the-tree', f'python data {data!r}: {label} {why}', {'family': 'c19', 'docs': [repr(data)]})
+    # recorded finding (KNOWN_FINDINGS.txt): one Python object used at two positions becomes ONE node with two parents (type-deduction
+    # memo); a node has a single set of inherited flags, so the parent attached last decides them, and a deep copy attaches in another order
+    from awesomeyaml.nodes.dict import ConfigDict as _CD
+    shared = _CD({'a': 1, 'z': [1]})
+    R.cases += 1
+    if node_signature(copy.deepcopy(shared)) != node_signature(shared):
+        R.fail('bounded:C19.known:node-shared-between-a-mapping-and-a-list', "ConfigDict({'a': 1, 'z': [1]}): the node of 1 is shared by the mapping and the list; the original has inherited delete None "
+               "at a, its deep copy True", {'family': 'c19', 'docs': ["{'a': 1, 'z': [1]}"]})
     for _ in range(n_cases(tier, 250, 4000)):
         text = gen_rich_doc(rng)
         try:
@@ -464,6 +495,15 @@ def run_c12(repo, tier, seed, only=None):
         if rc != 0 or not res or res[0] != exp:
             R.fail('bounded:C12.eval-computes-what-python-computes' + ('' if fname else '(no-file-name)'),
                    f'program {prog!r} a=2 filename={fname!r}: native {exp!r}; through !eval {res!r}, exit status {rc!r}', {'family': 'c12', 'docs': [prog], 'filename': fname})
+    # f-string nodes (implicit f'..' / f".." form and the explicit !fstr tag with a bare body) against the Python f-string over the same name
+    fcases = [("e: f'{a}x'", "f'{a}x'"), ('e: f"it\'s {a}"', 'f"it\'s {a}"'), ("e: !fstr plain {a} text", "f'plain {a} text'"), ("e: !fstr it's {a}", 'f"it\'s {a}"'),
+              ("e: !fstr it's {a} o'clock", 'f"it\'s {a} o\'clock"'), ('e: !fstr say "{a}"', "f'say \"{a}\"'"), ("e: !fstr \"{a}' + '{a}\"", 'f"{a}\' + \'{a}"')]
+    for ytext, pyexpr in fcases:
+        res, rc = eval_in_subprocess(repo, [{'text': 'a: 3\n' + ytext + '\n', 'filename': 'm.yaml'}])
+        exp = ['ok', repr(eval(pyexpr, {'a': 3}))]
+        R.case(('fstr', ytext), {'document': ytext, 'python': pyexpr})
+        if rc != 0 or not res or res[0] != exp:
+            R.fail('bounded:C12.f-string-node-equals-the-python-f-string-over-the-same-names', f'{ytext!r} with a=3: Python gives {exp!r}; the node gives {res!r} (exit {rc!r})', {'family': 'c12', 'docs': [ytext]})
     # histories: several builds in ONE process must not see each other (config values, symbols)
     for _ in range(n_cases(tier, 6, 40)):
         prog = rng.choice(['x = 1\na', 'a * 10', 'y = a\ny', 'import math\na'])
@@ -489,8 +529,63 @@ def register_c12(R):
                            stands_in_for='EvalNode._patch_access_to_globals (CPython bytecode rewriting: outside any source-level contract), compile/exec/eval, sys.modules namespace cache'))
 
 
+def run_c13(repo, tier, seed, only=None):
+    """C13 end to end: !call / !bind nodes written in the scalar, list and mapping forms are built and evaluated; the call the target
+    receives is compared with the call the property statement prescribes (scalar -> position 0, list -> positions 0..n-1, integer
+    key i -> i-th positional parameter, string key -> parameter of that name, gaps bound by name)"""
+    ay = load(repo)
+    import builtins
+    rng = random.Random(13000 + seed)
+    R = Runner('C13')
+    name = 'bounded:C13.target-receives-the-arguments-the-statement-prescribes'
+    builtins._verif_c13_any = lambda *a, **k: ('any', a, tuple(sorted(k.items())))
+
+    def _abc(a, b=None, c=None):
+        return ('abc', a, b, c)
+    builtins._verif_c13_abc = _abc
+    try:
+        scalars = [("hello", 'hello'), ("'two words'", 'two words'), ("'12'", '12'), ("''", ''), ('x', 'x'), ('3', 3), ('1.5', 1.5), ('true', True), ('dir/file.txt', 'dir/file.txt')]
+        cases = []
+        for text, val in scalars:
+            cases.append((f'!call:builtins._verif_c13_any {text}', ('any', (val,), ())))
+            cases.append((f'!call:builtins._verif_c13_abc {text}', ('abc', val, None, None)))
+            cases.append((f'!bind:builtins._verif_c13_any {text}', ('any', (val,), ())))
+        cases += [("!call:builtins._verif_c13_any ['ab', 'cd']", ('any', ('ab', 'cd'), ())), ("!call:builtins._verif_c13_any [['ab']]", ('any', (['ab'],), ())),
+                  ("!call:builtins._verif_c13_any []", ('any', (), ())), ("!call:builtins._verif_c13_any {}", ('any', (), ())),
+                  ("!call:builtins._verif_c13_abc {0: 'p', c: 'r'}", ('abc', 'p', None, 'r')), ("!call:builtins._verif_c13_abc {0: 'p', 2: 'r'}", ('abc', 'p', None, 'r')),
+                  ("!call:builtins._verif_c13_abc {a: 'ab', b: 'cd'}", ('abc', 'ab', 'cd', None)), ("!bind:builtins._verif_c13_abc {b: 'xy', 0: 'hello'}", ('abc', 'hello', 'xy', None)),
+                  ("!call:builtins._verif_c13_any {k: 'vw', 0: 'hello'}", ('any', ('hello',), (('k', 'vw'),)))]
+        for _ in range(n_cases(tier, 30, 300)):
+            n = rng.randint(0, 3)
+            vals = [rng.choice(['ab', '', 'x', 0, 1.5, True, 'long text']) for _ in range(n)]
+            cases.append(('!call:builtins._verif_c13_any [' + ', '.join(G.render_scalar(v) for v in vals) + ']', ('any', tuple(vals), ())))
+        for text, want in cases:
+            doc = 'f: ' + text + '\n'
+            try:
+                cfg = ay.Config.build(doc, raw_yaml=True)
+                got = cfg['f']
+                if text.startswith('!bind'):
+                    got = got()
+            except Exception as e:
+                got = ('error', type(e).__name__, str(e)[:120])
+            R.case(text, {'doc': doc, 'expected_call': repr(want)})
+            flat = lambda t: list(t[1]) if t and t[0] == 'any' else list(t[1:])
+            if got != want or [type(x) for x in flat(got)] != [type(x) for x in flat(want)]:
+                R.fail(name, f'{doc!r}: the target should be called as {want!r}, got {got!r}'[:600], {'family': 'c13', 'docs': [doc]})
+    finally:
+        del builtins._verif_c13_any, builtins._verif_c13_abc
+    return R.result()
+
+
+def register_c13(R):
+    R.tasks.append(Bounded('bounded:C13-argument-forms', ('C13',), run_c13,
+                           '9 scalar values x (!call / !bind, two signatures), fixed list and mapping forms, 30 (thorough 300) generated argument lists of length <= 3',
+                           stands_in_for='FunctionNode.__init__ (normalisation of the scalar / list / mapping argument forms; dict comprehension over a sequence) and the construction path through the YAML constructors'))
+
+
 def _reg_all(R):
     register(R)
+    register_c13(R)
     register_c01(R)
     register_c19(R)
     register_c12(R)
